@@ -52,10 +52,10 @@ static void build_msg(const bytes &addr, const bytes &tags, bytes &out) {
         size_t got = rtosc_amessage((char *)out.data(), n, a.c_str(), t.c_str(), av.data());
         if (got != n) { fprintf(stderr, "rtosc_amessage wrote %zu, expected %zu\n", got, n); abort(); }
     } else { // type characters rtosc_amessage does not know: same layout by hand, no payload
-        memcpy(out.data(), addr.data(), addr.size());
+        if (!addr.empty()) memcpy(out.data(), addr.data(), addr.size());
         size_t p = addr.size() + (4 - addr.size() % 4);
         out[p] = ',';
-        memcpy(out.data() + p + 1, tags.data(), tags.size());
+        if (!tags.empty()) memcpy(out.data() + p + 1, tags.data(), tags.size());
     }
 }
 
@@ -109,18 +109,32 @@ static std::string op_X(const std::vector<std::string> &w) {
     Exact P(pat);
     uint64_t pc = 0, ph = 0;
     std::vector<uint64_t> mc(tagv.size(), 0), mh(tagv.size(), 0);
-    std::vector<bytes> msgs(tagv.size());
+    // In this mode the messages are laid out by hand (same bytes as build_msg produces, which
+    // op_M checks against rtosc_amessage): address, NUL padding, ",tags", NUL padding, zero
+    // payload, SLACK zero bytes.
+    std::vector<size_t> tail(tagv.size());
+    for (size_t j = 0; j < tagv.size(); ++j) {
+        size_t n = 1 + tagv[j].size();
+        n += 4 - n % 4;
+        for (unsigned char t : tagv[j]) n += zero_arg_size(t);
+        tail[j] = n + SLACK;
+    }
+    std::vector<unsigned char> buf(maxlen + 8 + 64 + 16 * 8 + SLACK);
+    std::vector<unsigned char> a0(maxlen + 1);
     for (int len = 0; len <= maxlen; ++len) {
         std::vector<int> idx(len, 0);
+        size_t apad = len + (4 - len % 4);
         while (true) {
-            bytes addr(len);
-            for (int i = 0; i < len; ++i) addr[i] = alph[idx[i]];
-            bytes a0 = addr;
-            a0.push_back(0);
-            if (rtosc_match_path(P.c(), (const char *)a0.data(), NULL)) { pc++; mix(ph, addr.data(), addr.size()); }
+            for (int i = 0; i < len; ++i) a0[i] = alph[idx[i]];
+            a0[len] = 0;
+            if (rtosc_match_path(P.c(), (const char *)a0.data(), NULL)) { pc++; mix(ph, a0.data(), len); }
             for (size_t j = 0; j < tagv.size(); ++j) {
-                build_msg(addr, tagv[j], msgs[j]);
-                if (rtosc_match(P.c(), (const char *)msgs[j].data(), NULL)) { mc[j]++; mix(mh[j], addr.data(), addr.size()); }
+                if (apad + tail[j] > buf.size()) return "bad-op";
+                memset(buf.data(), 0, apad + tail[j]);
+                memcpy(buf.data(), a0.data(), len);
+                buf[apad] = ',';
+                if (!tagv[j].empty()) memcpy(buf.data() + apad + 1, tagv[j].data(), tagv[j].size());
+                if (rtosc_match(P.c(), (const char *)buf.data(), NULL)) { mc[j]++; mix(mh[j], a0.data(), len); }
             }
             int k = len - 1;
             while (k >= 0 && ++idx[k] == (int)alph.size()) idx[k--] = 0;
